@@ -338,161 +338,62 @@ def mkError (id : Int) (errcode : Int) (message : String) : J :=
 def isInt32 (v : Int) : Prop := -2147483648 ≤ v ∧ v ≤ 2147483647
 instance (v : Int) : Decidable (isInt32 v) := by unfold isInt32; exact inferInstance
 
-/-! ## Rpc: pending-request map + TimeoutMonitor ring -/
+/-! ## Rpc
 
-/-- a completion callback as the harness scripts it: `tag` identifies it, `chain` = it issues one
-further (plain) request from inside the callback -/
+One `Rpc` object has two halves that share nothing but `proto_`: the client half (`id_alloc_`,
+`request_callback_`, `request_timeout_`) and the server half (`method_services_`,
+`tobe_respond_`, `respond_timeout_` — a second `TimeoutMonitor` with its own 1-s timer, `Srv`).
+User callbacks (completion callbacks, service handlers) are *scripts*: lists of API calls made
+from inside the callback on the same object (`Act`), kept in a static program table (`Prog`). -/
+
+/-- what a service handler returns -/
+inductive Ret where
+  | sync (code : Int)      -- true: the library answers right away with this errcode (0 = a result)
+  | async                  -- false: the application calls respond() later (or never)
+deriving Repr, DecidableEq
+
+/-- one API call made from inside a callback -/
+inductive Act where
+  | request (cb : Nat) (m : Nat)        -- rpc.request(method m, params, completion script #cb)
+  | notify (m : Nat)                    -- rpc.notify(method m)
+  | respond (id code : Int)             -- rpc.respond(id, …) for some inbound request id
+  | respondCur (code : Int)             -- in a handler: rpc.respond(<the id being served>, …)
+  | inject (rid code : Int)             -- a response frame with id literal `rid` is fed to the proto
+                                        --   from inside the callback (synchronous transport, re-entrant)
+  | setService (m : Nat) (h : Option Nat)   -- rpc.addService(method m, handler #h) / an empty callback
+  | cleanup                             -- rpc.cleanup()
+deriving Repr, DecidableEq
+
+structure Handler where
+  acts : List Act
+  ret  : Ret
+deriving Repr, DecidableEq
+
+/-- the user's code: completion scripts and service handlers, referred to by index -/
+structure Prog where
+  cbs : List (List Act) := []
+  hs  : List Handler := []
+deriving Repr, DecidableEq
+
+/-- a completion callback: `tag` identifies the `request()` call that installed it -/
 structure Cb where
   tag : Nat
-  chain : Bool
+  script : Nat
 deriving Repr, DecidableEq
 
 inductive REv where
-  | sent (id : Nat)                   -- proto_->sendRequest(id, …)
-  | fired (tag : Nat) (code : Int)    -- the completion callback `tag` ran with errcode `code`
+  | sent (id : Nat) (m : Nat)           -- proto_->sendRequest(id, method m, …)
+  | fired (tag : Nat) (code : Int)      -- the completion callback `tag` ran with errcode `code`
+  | called (id : Int) (h : Nat)         -- service handler #h ran for inbound request id
+  | answered (id : Int) (code : Int)    -- proto_->sendResult(id, …) (code 0) / sendError(id, code)
+  | overflow                            -- the model's nesting budget ran out (never in accepted runs)
 deriving Repr, DecidableEq
 
 def kRequestTimeout : Int := -32000
-
-structure Rpc where
-  n       : Nat                         -- check_times (timeout_sec)
-  idAlloc : Nat := 0                    -- id_alloc_
-  nTag    : Nat := 0                    -- callbacks handed out by the harness so far
-  pending : List (Nat × Cb) := []       -- request_callback_
-  ring    : List (List Nat) := []       -- TimeoutMonitor ring, head = curr_item_
-  vn      : Nat := 0                    -- value_number_
-  timerOn : Bool := false               -- sp_timer_ enabled
-  now     : Nat := 0                    -- steady clock (ms)
-  due     : Nat := 0                    -- expiry of the persistent 1 s timer while enabled
-deriving Repr, DecidableEq
-
-/-- `Rpc::initialize(proto, timeout_sec)` with `timeout_sec ≥ 1` -/
-def Rpc.init (n : Nat) : Rpc := { n := n, ring := List.replicate n [] }
-
-def pendingFind (p : List (Nat × Cb)) (id : Int) : Option (Nat × Cb) :=
-  p.find? (fun e => (e.1 : Int) = id)
-
-def pendingErase (p : List (Nat × Cb)) (id : Nat) : List (Nat × Cb) :=
-  p.filter (fun e => e.1 ≠ id)
-
-/-- `TimeoutMonitor::add`: push to the current slot; enable the timer on 0 → 1 -/
-def Rpc.monitorAdd (s : Rpc) (id : Nat) : Rpc :=
-  let ring' := match s.ring with
-    | [] => []
-    | cur :: rest => (cur ++ [id]) :: rest
-  let s1 := { s with ring := ring' }
-  let s2 := if s.vn = 0 then { s1 with timerOn := true, due := s.now + 1000 } else s1
-  { s2 with vn := s.vn + 1 }
-
-/-- `Rpc::request(method, params, cb)` with a callback -/
-def Rpc.request (s : Rpc) (chain : Bool) : Rpc × List REv :=
-  let id := s.idAlloc + 1
-  let cb : Cb := { tag := s.nTag, chain := chain }
-  let s1 := { s with idAlloc := id, nTag := s.nTag + 1,
-                     pending := pendingErase s.pending id ++ [(id, cb)] }
-  (s1.monitorAdd id, [.sent id])
-
-/-- run callback `cb` with `code`: the event, and the chained request if it is scripted -/
-def Rpc.fire (s : Rpc) (cb : Cb) (code : Int) : Rpc × List REv :=
-  if cb.chain then
-    let r := s.request false
-    (r.1, .fired cb.tag code :: r.2)
-  else (s, [.fired cb.tag code])
-
-/-- `Rpc::onRecvRespond` / `Rpc::onRequestTimeout`: find, call, erase -/
-def Rpc.complete (s : Rpc) (id : Int) (code : Int) : Rpc × List REv :=
-  match pendingFind s.pending id with
-  | none => (s, [])
-  | some (k, cb) =>
-    let r := s.fire cb code
-    ({ r.1 with pending := pendingErase r.1.pending k }, r.2)
-
-def Rpc.completeAll (s : Rpc) (code : Int) : List Nat → Rpc × List REv
-  | [] => (s, [])
-  | id :: ids =>
-    let r1 := s.complete id code
-    let r2 := Rpc.completeAll r1.1 code ids
-    (r2.1, r1.2 ++ r2.2)
-
-/-- `TimeoutMonitor::onTimerTick` -/
-def Rpc.tick (s : Rpc) : Rpc × List REv :=
-  match s.ring with
-  | [] => (s, [])
-  | cur :: rest =>
-    -- curr_item_ = curr_item_->next; swap(tobe_handle, curr_item_->items)
-    match rest ++ [cur] with
-    | [] => (s, [])
-    | items :: others =>
-      let vn' := s.vn - items.length
-      let s1 := { s with ring := [] :: others, vn := vn', timerOn := if vn' = 0 then false else s.timerOn }
-      s1.completeAll kRequestTimeout items
-
-/-- a response with id literal `rid` arrives -/
-def Rpc.respondG (fixed : Bool) (s : Rpc) (rid : Int) (code : Int) : Rpc × List REv :=
-  match respIdG fixed rid with
-  | none => (s, [])
-  | some id => s.complete id code
-
-def Rpc.respond (s : Rpc) (rid : Int) (code : Int) : Rpc × List REv := s.respondG true rid code
-
-inductive Op where
-  | request (chain : Bool)
-  | notify
-  | response (id : Int) (code : Int)     -- id: the integer literal in the message, any size
-  | tick
-deriving Repr, DecidableEq
-
-def step (s : Rpc) : Op → Rpc × List REv
-  | .request chain => s.request chain
-  | .notify => (s, [.sent 0])
-  | .response id code => s.respond id code
-  | .tick => s.tick
-
-def run (s : Rpc) : List Op → Rpc × List REv
-  | [] => (s, [])
-  | op :: ops =>
-    let r1 := step s op
-    let r2 := run r1.1 ops
-    (r2.1, r1.2 ++ r2.2)
-
-/-- the loop's `handleExpiredTimers` for the monitor's persistent timer after the clock moved:
-`while (enabled && expired <= now) { expired += interval; onTimerTick(); }` -/
-def Rpc.expire : Nat → Rpc → Rpc × List REv
-  | 0, s => (s, [])
-  | fuel + 1, s =>
-    if s.timerOn ∧ s.due ≤ s.now then
-      let r1 := ({ s with due := s.due + 1000 }).tick
-      let r2 := Rpc.expire fuel r1.1
-      (r2.1, r1.2 ++ r2.2)
-    else (s, [])
-
-/-- the clock advances by `ms` and the loop runs -/
-def Rpc.advance (s : Rpc) (ms : Nat) : Rpc × List REv :=
-  Rpc.expire (ms / 1000 + 2) { s with now := s.now + ms }
-
-/-! ## Rpc, server half: `onRecvRequest`, `respond()`, `tobe_respond_`, `respond_timeout_`
-
-The two halves of an `Rpc` object share nothing but `proto_`: the client half (`Rpc` above:
-`id_alloc_`, `request_callback_`, `request_timeout_`) and the server half (`Srv`:
-`method_services_`, `tobe_respond_`, `respond_timeout_`, a second `TimeoutMonitor` with its own
-1-s timer). -/
-
-/-- how the harness scripts the method a request names -/
-inductive Service where
-  | sync (errcode : Int)   -- registered; the callback returns true with this errcode (0 = a result)
-  | async                  -- registered; the callback returns false, the application calls respond() later
-  | unknown                -- not registered
-deriving Repr, DecidableEq
-
-inductive SEv where
-  | called (id : Int)               -- the service callback ran
-  | sent (id : Int) (code : Int)    -- proto_->sendResult(id, …) (code 0) / proto_->sendError(id, code)
-deriving Repr, DecidableEq
-
 def kMethodNotFound : Int := -32601
 
+/-- server half: inbound ids awaiting an answer + the respond-timeout monitor -/
 structure Srv where
-  n       : Nat
   tobe    : List Int := []            -- tobe_respond_ (a set)
   ring    : List (List Int) := []     -- respond_timeout_ ring, head = curr_item_
   vn      : Nat := 0
@@ -501,7 +402,12 @@ structure Srv where
   due     : Nat := 0
 deriving Repr, DecidableEq
 
-def Srv.init (n : Nat) : Srv := { n := n, ring := List.replicate n [] }
+def Srv.init (n : Nat) : Srv := { ring := List.replicate n [] }
+
+def Srv.insert (s : Srv) (id : Int) : Srv :=
+  { s with tobe := if s.tobe.contains id then s.tobe else s.tobe ++ [id] }
+
+def Srv.erase (s : Srv) (id : Int) : Srv := { s with tobe := s.tobe.filter (· ≠ id) }
 
 /-- `TimeoutMonitor::add` -/
 def Srv.monitorAdd (s : Srv) (id : Int) : Srv :=
@@ -511,28 +417,6 @@ def Srv.monitorAdd (s : Srv) (id : Int) : Srv :=
   let s1 := { s with ring := ring' }
   let s2 := if s.vn = 0 then { s1 with timerOn := true, due := s.now + 1000 } else s1
   { s2 with vn := s.vn + 1 }
-
-/-- `Rpc::respond(id, errcode, result)` / `respond(id, result)` / `respond(id, errcode)`:
-sends whenever `id ≠ 0` — `tobe_respond_` is not consulted — and erases the id -/
-def Srv.respond (s : Srv) (id code : Int) : Srv × List SEv :=
-  if id = 0 then (s, [])
-  else ({ s with tobe := s.tobe.filter (· ≠ id) }, [.sent id code])
-
-/-- `Rpc::onRecvRequest(id, method, params)` -/
-def Srv.recvRequest (s : Srv) (id : Int) (svc : Service) : Srv × List SEv :=
-  match svc with
-  | .unknown => (s, [.sent id kMethodNotFound])
-  | .sync code =>
-    if id ≠ 0 then
-      let s1 := { s with tobe := if s.tobe.contains id then s.tobe else s.tobe ++ [id] }
-      let r := s1.respond id code
-      (r.1, .called id :: r.2)
-    else (s, [.called 0])
-  | .async =>
-    if id ≠ 0 then
-      let s1 := { s with tobe := if s.tobe.contains id then s.tobe else s.tobe ++ [id] }
-      (s1.monitorAdd id, [.called id])
-    else (s, [.called 0])
 
 /-- `TimeoutMonitor::onTimerTick` + `Rpc::onRespondTimeout` for each id: only bookkeeping -/
 def Srv.tick (s : Srv) : Srv :=
@@ -553,80 +437,280 @@ def Srv.expire : Nat → Srv → Srv
 
 def Srv.advance (s : Srv) (ms : Nat) : Srv := Srv.expire (ms / 1000 + 2) { s with now := s.now + ms }
 
-/-! ## two peers over a scripted pipe (lossy, reordering, duplicating) -/
+def Srv.cleanup (s : Srv) : Srv := { s with tobe := [], ring := [], vn := 0, timerOn := false }
 
-structure World where
-  c   : Rpc                          -- the client peer (client half)
-  v   : Srv                          -- the server peer (server half)
-  c2s : List (Int × Service) := []   -- requests in flight: id, the method's kind
-  s2c : List (Int × Int) := []       -- responses in flight: id, code (0 = result)
-deriving Repr
-
-/-- the service chained requests (issued from inside a completion callback) name -/
-def chainSvc : Service := .sync 0
-
-def reqMsgs (svc : Service) (evs : List REv) : List (Int × Service) :=
-  evs.filterMap fun | .sent id => some ((id : Int), svc) | _ => none
-
-def rspMsgs (evs : List SEv) : List (Int × Int) :=
-  evs.filterMap fun | .sent id code => some (id, code) | _ => none
-
-inductive WOp where
-  | request (chain : Bool) (svc : Service)
-  | notify (svc : Service)
-  | deliver (toServer : Bool) (i : Nat)
-  | drop (toServer : Bool) (i : Nat)
-  | dup (toServer : Bool) (i : Nat)
-  | srespond (id code : Int)           -- the server application calls respond()
-  | ctick                              -- the client's request_timeout_ timer fires
-  | stick                              -- the server's respond_timeout_ timer fires
+structure Rpc where
+  n        : Nat                         -- check_times (timeout_sec)
+  idAlloc  : Nat := 0                    -- id_alloc_
+  nTag     : Nat := 0                    -- callbacks handed to request() so far
+  pending  : List (Nat × Cb) := []       -- request_callback_
+  ring     : List (List Nat) := []       -- request_timeout_ ring, head = curr_item_
+  vn       : Nat := 0                    -- value_number_
+  timerOn  : Bool := false               -- sp_timer_ enabled
+  now      : Nat := 0                    -- steady clock (ms)
+  due      : Nat := 0                    -- expiry of the persistent 1 s timer while enabled
+  prog     : Prog := {}                  -- the user's callbacks (static)
+  services : List (Option Nat) := []     -- method_services_: method index ↦ handler index
+  srv      : Srv := {}                   -- server half
+  dead     : Bool := false               -- cleanup() has been called
 deriving Repr, DecidableEq
 
-/-- the client receives a response message -/
-def World.clientRecv (w : World) (m : Int × Int) : World × List REv :=
-  let r := w.c.respond m.1 m.2
-  ({ w with c := r.1, c2s := w.c2s ++ reqMsgs chainSvc r.2 }, r.2)
+/-- `Rpc::initialize(proto, timeout_sec)` with `timeout_sec ≥ 1` -/
+def Rpc.init (n : Nat) : Rpc := { n := n, ring := List.replicate n [], srv := Srv.init n }
 
-/-- the server receives a request message -/
-def World.serverRecv (w : World) (m : Int × Service) : World × List SEv :=
-  let r := w.v.recvRequest m.1 m.2
-  ({ w with v := r.1, s2c := w.s2c ++ rspMsgs r.2 }, r.2)
+def pendingFind (p : List (Nat × Cb)) (id : Int) : Option (Nat × Cb) :=
+  p.find? (fun e => (e.1 : Int) = id)
 
-def World.step (w : World) : WOp → World × List REv × List SEv
-  | .request chain svc =>
-    let r := w.c.request chain
-    ({ w with c := r.1, c2s := w.c2s ++ reqMsgs svc r.2 }, r.2, [])
-  | .notify svc => ({ w with c2s := w.c2s ++ [(0, svc)] }, [.sent 0], [])
+def pendingErase (p : List (Nat × Cb)) (id : Nat) : List (Nat × Cb) :=
+  p.filter (fun e => e.1 ≠ id)
+
+/-- `TimeoutMonitor::add`: push to the current slot; enable the timer on 0 → 1 -/
+def Rpc.monitorAdd (s : Rpc) (id : Nat) : Rpc :=
+  let ring' := match s.ring with
+    | [] => []
+    | cur :: rest => (cur ++ [id]) :: rest
+  let s1 := { s with ring := ring' }
+  let s2 := if s.vn = 0 then { s1 with timerOn := true, due := s.now + 1000 } else s1
+  { s2 with vn := s.vn + 1 }
+
+/-- `Rpc::request(method m, params, cb)` with a completion callback running script #`script` -/
+def Rpc.request (s : Rpc) (script : Nat) (m : Nat := 0) : Rpc × List REv :=
+  let id := s.idAlloc + 1
+  let cb : Cb := { tag := s.nTag, script := script }
+  let s1 := { s with idAlloc := id, nTag := s.nTag + 1,
+                     pending := pendingErase s.pending id ++ [(id, cb)] }
+  (s1.monitorAdd id, [.sent id m])
+
+/-- `Rpc::respond(id, …)` (all three overloads): sends whenever `id ≠ 0` — `tobe_respond_` is not
+consulted — and erases the id -/
+def Rpc.apiRespond (s : Rpc) (id code : Int) : Rpc × List REv :=
+  if id = 0 then (s, []) else ({ s with srv := s.srv.erase id }, [.answered id code])
+
+/-- `Rpc::cleanup()` -/
+def Rpc.cleanup (s : Rpc) : Rpc :=
+  { s with pending := [], ring := [], vn := 0, timerOn := false, services := [],
+           srv := s.srv.cleanup, dead := true }
+
+/-- `Rpc::addService(method m, handler #h)` (`none` = an empty callback: the method becomes unknown) -/
+def Rpc.setService (s : Rpc) (m : Nat) (h : Option Nat) : Rpc :=
+  { s with services := (s.services ++ List.replicate (m + 1 - s.services.length) none).set m h }
+
+/-- one act of a callback script; `k` handles a response arriving re-entrantly, `cur` is the id
+being served when the script is a service handler -/
+def doAct (k : Rpc → Int → Int → Rpc × List REv) (cur : Int) (s : Rpc) : Act → Rpc × List REv
+  | .request cb m => s.request cb m
+  | .notify m => (s, [.sent 0 m])
+  | .respond id code => s.apiRespond id code
+  | .respondCur code => s.apiRespond cur code
+  | .inject rid code =>
+    match respIdG true rid with
+    | none => (s, [])
+    | some id => k s id code
+  | .setService m h => (s.setService m h, [])
+  | .cleanup => (s.cleanup, [])
+
+def runActsWith (k : Rpc → Int → Int → Rpc × List REv) (cur : Int) (s : Rpc) : List Act → Rpc × List REv
+  | [] => (s, [])
+  | a :: as =>
+    let r1 := doAct k cur s a
+    let r2 := runActsWith k cur r1.1 as
+    (r2.1, r1.2 ++ r2.2)
+
+/-- `Rpc::onRecvRespond` / `Rpc::onRequestTimeout` as repaired by patches/C14-05: find, take the
+callback out and erase, then call it.  `fuel` bounds the nesting of responses injected from inside
+callbacks (the C++ call stack). -/
+def Rpc.completeF : Nat → Rpc → Int → Int → Rpc × List REv
+  | 0, s, _, _ => (s, [.overflow])
+  | fuel + 1, s, id, code =>
+    match pendingFind s.pending id with
+    | none => (s, [])
+    | some (k, cb) =>
+      let s1 := { s with pending := pendingErase s.pending k }
+      let r := runActsWith (Rpc.completeF fuel) 0 s1 (s.prog.cbs.getD cb.script [])
+      (r.1, .fired cb.tag code :: r.2)
+
+/-- the code before patches/C14-05: call first, erase afterwards (kept for the counterexample) -/
+def Rpc.completeOrigF : Nat → Rpc → Int → Int → Rpc × List REv
+  | 0, s, _, _ => (s, [.overflow])
+  | fuel + 1, s, id, code =>
+    match pendingFind s.pending id with
+    | none => (s, [])
+    | some (k, cb) =>
+      let r := runActsWith (Rpc.completeOrigF fuel) 0 s (s.prog.cbs.getD cb.script [])
+      ({ r.1 with pending := pendingErase r.1.pending k }, .fired cb.tag code :: r.2)
+
+/-- nesting budget of the executable model -/
+def maxDepth : Nat := 32
+
+def Rpc.complete (s : Rpc) (id : Int) (code : Int) : Rpc × List REv := Rpc.completeF maxDepth s id code
+
+def Rpc.runActs (cur : Int) (s : Rpc) (as : List Act) : Rpc × List REv :=
+  runActsWith (Rpc.completeF maxDepth) cur s as
+
+def Rpc.completeAll (s : Rpc) (code : Int) : List Nat → Rpc × List REv
+  | [] => (s, [])
+  | id :: ids =>
+    let r1 := s.complete id code
+    let r2 := Rpc.completeAll r1.1 code ids
+    (r2.1, r1.2 ++ r2.2)
+
+/-- `TimeoutMonitor::onTimerTick` (patches/C14-06: a copy of the callback is called, so a
+`cleanup()` made by one timeout callback does not stop the sweep: the remaining ids find nothing) -/
+def Rpc.tick (s : Rpc) : Rpc × List REv :=
+  match s.ring with
+  | [] => (s, [])
+  | cur :: rest =>
+    -- curr_item_ = curr_item_->next; swap(tobe_handle, curr_item_->items)
+    match rest ++ [cur] with
+    | [] => (s, [])
+    | items :: others =>
+      let vn' := s.vn - items.length
+      let s1 := { s with ring := [] :: others, vn := vn', timerOn := if vn' = 0 then false else s.timerOn }
+      s1.completeAll kRequestTimeout items
+
+/-- a response with id literal `rid` arrives -/
+def Rpc.respondG (fixed : Bool) (s : Rpc) (rid : Int) (code : Int) : Rpc × List REv :=
+  match respIdG fixed rid with
+  | none => (s, [])
+  | some id => s.complete id code
+
+def Rpc.respond (s : Rpc) (rid : Int) (code : Int) : Rpc × List REv := s.respondG true rid code
+
+/-- `Rpc::onRecvRequest(id, method m, params)` (patches/C14-07: a copy of the handler is called; if
+the handler cleaned the object up nothing more is done) -/
+def Rpc.onRequest (s : Rpc) (id : Int) (m : Nat) : Rpc × List REv :=
+  match (s.services.getD m none).bind (fun h => (s.prog.hs[h]?).map (fun hd => (h, hd))) with
+  | none => (s, [.answered id kMethodNotFound])
+  | some (h, hd) =>
+    if id ≠ 0 then
+      let s1 := { s with srv := s.srv.insert id }
+      let r := s1.runActs id hd.acts
+      if r.1.dead then (r.1, .called id h :: r.2)
+      else
+        match hd.ret with
+        | .sync code => let r2 := r.1.apiRespond id code; (r2.1, .called id h :: (r.2 ++ r2.2))
+        | .async => ({ r.1 with srv := r.1.srv.monitorAdd id }, .called id h :: r.2)
+    else
+      let r := s.runActs 0 hd.acts
+      (r.1, .called 0 h :: r.2)
+
+inductive Op where
+  | request (script : Nat) (m : Nat)
+  | notify (m : Nat)
+  | response (id : Int) (code : Int)     -- a response arrives; id: the integer literal in the message, any size
+  | tick                                 -- the request_timeout_ timer fires
+  | apiRespond (id code : Int)           -- the application calls respond()
+  | inRequest (id : Int) (m : Nat)       -- a request arrives (id as the int getter delivers it)
+  | stick                                -- the respond_timeout_ timer fires
+  | setService (m : Nat) (h : Option Nat)
+  | cleanup
+deriving Repr, DecidableEq
+
+def step (s : Rpc) : Op → Rpc × List REv
+  | .request script m => s.request script m
+  | .notify m => (s, [.sent 0 m])
+  | .response id code => s.respond id code
+  | .tick => s.tick
+  | .apiRespond id code => s.apiRespond id code
+  | .inRequest id m => s.onRequest id m
+  | .stick => ({ s with srv := s.srv.tick }, [])
+  | .setService m h => (s.setService m h, [])
+  | .cleanup => (s.cleanup, [])
+
+def run (s : Rpc) : List Op → Rpc × List REv
+  | [] => (s, [])
+  | op :: ops =>
+    let r1 := step s op
+    let r2 := run r1.1 ops
+    (r2.1, r1.2 ++ r2.2)
+
+/-- the loop's `handleExpiredTimers` for the monitor's persistent timer after the clock moved:
+`while (enabled && expired <= now) { expired += interval; onTimerTick(); }` -/
+def Rpc.expire : Nat → Rpc → Rpc × List REv
+  | 0, s => (s, [])
+  | fuel + 1, s =>
+    if s.timerOn ∧ s.due ≤ s.now then
+      let r1 := ({ s with due := s.due + 1000 }).tick
+      let r2 := Rpc.expire fuel r1.1
+      (r2.1, r1.2 ++ r2.2)
+    else (s, [])
+
+/-- the clock advances by `ms` and the loop runs (client half; `advanceAll` does both halves) -/
+def Rpc.advance (s : Rpc) (ms : Nat) : Rpc × List REv :=
+  Rpc.expire (ms / 1000 + 2) { s with now := s.now + ms }
+
+def Rpc.advanceAll (s : Rpc) (ms : Nat) : Rpc × List REv :=
+  let r := s.advance ms
+  ({ r.1 with srv := r.1.srv.advance ms }, r.2)
+
+/-! ## two peers over a scripted pipe (lossy, reordering, duplicating) -/
+
+inductive Msg where
+  | req (id : Int) (m : Nat)
+  | rsp (id : Int) (code : Int)
+deriving Repr, DecidableEq
+
+/-- what a peer's events put on the wire -/
+def outMsgs (evs : List REv) : List Msg :=
+  evs.filterMap fun
+    | .sent id m => some (.req (id : Int) m)
+    | .answered id code => some (.rsp id code)
+    | _ => none
+
+structure World where
+  a  : Rpc
+  b  : Rpc
+  ab : List Msg := []      -- frames in flight from a to b
+  ba : List Msg := []
+deriving Repr
+
+/-- the op a received message amounts to -/
+def Msg.op : Msg → Op
+  | .req id m => .inRequest id m
+  | .rsp id code => .response id code
+
+inductive WOp where
+  | api (onB : Bool) (op : Op)           -- an API call / timer tick at peer a (false) or b (true)
+  | deliver (toB : Bool) (i : Nat)
+  | drop (toB : Bool) (i : Nat)
+  | dup (toB : Bool) (i : Nat)
+deriving Repr, DecidableEq
+
+def World.apply (w : World) (onB : Bool) (op : Op) : World × List REv :=
+  if onB then
+    let r := step w.b op
+    ({ w with b := r.1, ba := w.ba ++ outMsgs r.2 }, r.2)
+  else
+    let r := step w.a op
+    ({ w with a := r.1, ab := w.ab ++ outMsgs r.2 }, r.2)
+
+/-- events: (peer a's, peer b's) -/
+def World.step (w : World) : WOp → World × List REv × List REv
+  | .api onB op => let r := w.apply onB op; (r.1, if onB then ([], r.2) else (r.2, []))
   | .deliver true i =>
-    match w.c2s[i]? with
+    match w.ab[i]? with
     | none => (w, [], [])
-    | some m => let r := ({ w with c2s := w.c2s.eraseIdx i }).serverRecv m; (r.1, [], r.2)
+    | some m => let r := ({ w with ab := w.ab.eraseIdx i }).apply true m.op; (r.1, [], r.2)
   | .deliver false i =>
-    match w.s2c[i]? with
+    match w.ba[i]? with
     | none => (w, [], [])
-    | some m => let r := ({ w with s2c := w.s2c.eraseIdx i }).clientRecv m; (r.1, r.2, [])
-  | .drop true i => ({ w with c2s := w.c2s.eraseIdx i }, [], [])
-  | .drop false i => ({ w with s2c := w.s2c.eraseIdx i }, [], [])
-  | .dup true i => ({ w with c2s := w.c2s ++ (w.c2s[i]?).toList }, [], [])
-  | .dup false i => ({ w with s2c := w.s2c ++ (w.s2c[i]?).toList }, [], [])
-  | .srespond id code =>
-    let r := w.v.respond id code
-    ({ w with v := r.1, s2c := w.s2c ++ rspMsgs r.2 }, [], r.2)
-  | .ctick =>
-    let r := w.c.tick
-    ({ w with c := r.1, c2s := w.c2s ++ reqMsgs chainSvc r.2 }, r.2, [])
-  | .stick => ({ w with v := w.v.tick }, [], [])
+    | some m => let r := ({ w with ba := w.ba.eraseIdx i }).apply false m.op; (r.1, r.2, [])
+  | .drop true i => ({ w with ab := w.ab.eraseIdx i }, [], [])
+  | .drop false i => ({ w with ba := w.ba.eraseIdx i }, [], [])
+  | .dup true i => ({ w with ab := w.ab ++ (w.ab[i]?).toList }, [], [])
+  | .dup false i => ({ w with ba := w.ba ++ (w.ba[i]?).toList }, [], [])
 
-def World.run (w : World) : List WOp → World × List REv × List SEv
+def World.run (w : World) : List WOp → World × List REv × List REv
   | [] => (w, [], [])
   | op :: ops =>
     let r1 := w.step op
     let r2 := World.run r1.1 ops
     (r2.1, r1.2.1 ++ r2.2.1, r1.2.2 ++ r2.2.2)
 
-/-- both clocks advance by `ms` and the loop runs (the driver's timed op) -/
-def World.advance (w : World) (ms : Nat) : World × List REv :=
-  let r := w.c.advance ms
-  ({ w with c := r.1, v := w.v.advance ms, c2s := w.c2s ++ reqMsgs chainSvc r.2 }, r.2)
+/-- both peers' clocks advance by `ms` and the loop runs (the driver's timed op) -/
+def World.advance (w : World) (ms : Nat) : World × List REv × List REv :=
+  let ra := w.a.advanceAll ms
+  let rb := w.b.advanceAll ms
+  ({ w with a := ra.1, b := rb.1, ab := w.ab ++ outMsgs ra.2, ba := w.ba ++ outMsgs rb.2 }, ra.2, rb.2)
 
 end Tbox.C14
